@@ -18,6 +18,9 @@ import re
 from . import bp_gen as G
 
 OWN = 'dtn://node/'
+# D20 (known finding): for these block types the bound payload class swallows surplus array items of the
+# canonical block instead of raising; for every other type the unchanged tree rejects them
+SURPLUS_TOLERATED_TYPES = (7,)
 
 
 class Rx(object):
@@ -253,6 +256,15 @@ def judge_cases(chk, rx, data, cases, stream, gates=None):
                           'the agent accepted a bundle in which a block with a non-zero CRC type has no CRC value, a '
                           'value of the wrong length, or a value that is not the CRC of the block\'s own encoding '
                           '(independent bit-at-a-time CRC over the re-encoded block): %s' % r['audit'], replay)
+        if r['accepted']:
+            sur = [x for x in G.surplus_items(bad) if x[1] not in SURPLUS_TOLERATED_TYPES]
+            if sur:
+                replay['delta'] = r['delta']
+                replay['surplus'] = sur
+                chk.violation('C08:surplus-array-items-accepted',
+                              'a corrupted bundle was accepted in which a canonical block has more array items than its '
+                              'CRC type allows (CRC type corrupted to 0 with the CRC value still there, or an array head '
+                              'that swallows the following block); (block index, type, items, allowed): %s' % sur, replay)
         if r['accepted'] and r['text_slots']:
             replay['delta'] = r['delta']
             replay['text_slots'] = r['text_slots']
